@@ -50,9 +50,15 @@ def showOutcome (o : Outcome Text) : String :=
   | .err k => "E:" ++ k
   | .panic _ => "PANIC"
 
-/-- parse `L:<text>` / `F:<var>:<s>:<e>:<i|x>` … `E` tokens; a line without a visible first
-character continues the declaration before it. Returns the blocks and the remaining tokens -/
-def parseBlocks : Nat → List String → Option (List Block × List String)
+def parseBound (w : String) : Option Bound :=
+  match w.toInt? with
+  | some k => some (.lit k)
+  | none => if w.startsWith "{" && w.endsWith "}" then some (.ph (dec ((w.drop 1).toString.dropEnd 1).toString.toList)) else none
+
+/-- parse `L:<text>` / `F:<var>:<s>:<e>:<i|x>` … `E` tokens (`<s>`/`<e>`: an integer, or `{name}` for the
+placeholder of an enclosing loop); a line without a visible first character continues the declaration
+before it. Returns the blocks and the remaining tokens -/
+def parseBlocks : Nat → List String → Option (List XBlock × List String)
   | 0, _ => none
   | _ + 1, [] => some ([], [])
   | fuel + 1, tok :: rest =>
@@ -65,7 +71,7 @@ def parseBlocks : Nat → List String → Option (List Block × List String)
     else if tok.startsWith "F:" then
       match (tok.drop 2).toString.splitOn ":" with
       | [v, s, e, i] =>
-        match s.toInt?, e.toInt?, parseBlocks fuel rest with
+        match parseBound s, parseBound e, parseBlocks fuel rest with
         | some s, some e, some (body, r) =>
           match r with
           | "E" :: r' => (parseBlocks fuel r').map fun (bs, r'') => (.loop (dec v.toList) s e (i == "i") body :: bs, r'')
@@ -85,20 +91,30 @@ def stepH (ws : List String) (impl : String) : String :=
       let kv := words impl
       match field kv "src", field kv "out", field kv "hand", field kv "ast" with
       | some src, some out, some handI, some ast =>
-        let mSrc := joinLines (renderList unit 0 bs)
-        let mHand := joinLines (handList [] bs)
+        let mSrc := joinLines (xrenderList unit 0 bs)
+        let mHand := joinLines (xhandList [] bs)
         if encTok mSrc != src then s!"DIFF render model={encTok mSrc}"
         else if encTok mHand != handI then s!"DIFF hand-expansion of the generator differs from the specification model={encTok mHand}"
         else
-          -- the property verdict first (a failing input), then the mirror
-          let wf := wellFormed unit bs
-          if wf && out != handI then s!"JUDGE C42 expansion of a well-formed loop block differs from the hand-written copies: {out}"
-          else if wf && !(ast.startsWith "eq" || ast == "err-both") then
+          -- the property verdict on the implementation's own output first (a failing input), then the mirror.
+          -- `wf`: covered by the theorem (all bounds literal); `judged`: the wider class decided against the
+          -- specification's hand expansion (bounds may be placeholders of enclosing loops)
+          let wf := match XBlock.toBlockList? bs with
+            | some b => wellFormed unit b
+            | none => false
+          let judged := wf || judgeable unit bs
+          if judged && out != handI then
+            if out.startsWith "E:" || out == "PANIC" then
+              s!"JUDGE C42 a well-formed loop program is rejected ({out}) instead of being expanded to the hand-written copies"
+            else s!"JUDGE C42 expansion of a well-formed loop block differs from the hand-written copies: {out}"
+          else if judged && !(ast.startsWith "eq" || ast == "err-both") then
             s!"JUDGE C42 parse(loop program) and parse(hand-expanded program) differ: ast={ast}"
           else
             let mOut := (showOutcome (expand mSrc)).replace " " "\\s"
             if mOut != out then s!"DIFF model={mOut}"
-            else if wf then "ok well-formed" else "ok not-well-formed (mirror only)"
+            else if wf then "ok well-formed"
+            else if judged then "ok judged against the specification (a bound mentions an outer variable)"
+            else "ok not-well-formed (mirror only)"
       | _, _, _, _ => "BADLINE fields"
     | _, _ => "BADLINE blocks"
   | [] => "BADLINE"
